@@ -43,6 +43,9 @@ type Call struct {
 	Gap  int  `json:"gap_ms"` // milliseconds after the previous call's start (even)
 	Lat  int  `json:"lat"`
 	Fail bool `json:"fail"`
+	// Partial (only with Fail): the function returns a non-nil item TOGETHER with its error (a partial result).
+	// The call still failed: the error goes to the callers and nothing is cached.
+	Partial bool `json:"partial,omitempty"`
 }
 
 type Case struct {
@@ -58,6 +61,9 @@ func (c Case) String() string {
 		out := "ok"
 		if cl.Fail {
 			out = "err"
+			if cl.Partial {
+				out = "item+err"
+			}
 		}
 		s += fmt.Sprintf(" [#%d @%dms %s fn:%v/%s]", i, at, keyNames[cl.Key], latencies[cl.Lat], out)
 	}
@@ -74,8 +80,8 @@ func enumMax(thorough bool) int {
 func enum(s pbt.Src, thorough bool) Case {
 	c := Case{Expiry: s.Intn(2)}
 	c.Calls = pbt.Seq(s, 1, enumMax(thorough), func(s pbt.Src) Call {
-		i := s.Intn(2 * 4 * 3 * 2)
-		return Call{Key: i % 2, Gap: int(gapsSmall[(i/2)%4] / time.Millisecond), Lat: (i / 8) % 3, Fail: i/24 == 1}
+		i := s.Intn(2 * 4 * 3 * 3)
+		return Call{Key: i % 2, Gap: int(gapsSmall[(i/2)%4] / time.Millisecond), Lat: (i / 8) % 3, Fail: i/24 >= 1, Partial: i/24 == 2}
 	})
 	return c
 }
@@ -95,7 +101,11 @@ func gen(s pbt.Src, thorough bool) Case {
 		case 3:
 			gap = 2 * (10 + s.Intn(25))
 		}
-		return Call{Key: s.Intn(nk), Gap: gap, Lat: s.Intn(3), Fail: s.Intn(4) == 0}
+		cl := Call{Key: s.Intn(nk), Gap: gap, Lat: s.Intn(3), Fail: s.Intn(4) == 0}
+		if cl.Fail {
+			cl.Partial = s.Intn(3) == 0
+		}
+		return cl
 	})
 	return c
 }
@@ -185,6 +195,9 @@ func prop(c Case, r *pbt.R) error {
 				var err error
 				if cl.Fail {
 					err = fmt.Errorf("fn error #%d", v)
+					if cl.Partial {
+						it = mkItem(v)
+					}
 				} else {
 					it = mkItem(v)
 				}
